@@ -48,8 +48,8 @@ def run(ctx):
         ops = [rand_op(r) for _ in range(r.randrange(1, 25))]
         cases.append('(case h%d pshist (ops %s))' % (n, ' '.join(ops)))
     ctx.rule = ('all histories of <=%d operations over {add/replace p,q; remove p,q; JSON round trip; Cedar text reload; load document; UnmarshalJSON into the live set; '
-                'mutate a Map() copy; store one policy object under two ids; keep a copy of the set; remove not-yet-reached entries while ranging over All()}, each followed by get/all/marshal/authorize, plus random histories of 1-24 operations over 7 ids '
-                '(incl. policy10 vs policy2 and the empty id) and a pool of 6 policies; every operation result compared; '
+                'mutate a Map() copy; store one policy object under two ids; keep a copy of the set; remove not-yet-reached entries while ranging over All()}, each followed by get/all/marshal/authorize, plus random histories of 1-24 operations over 14 ids '
+                '(incl. policy10 vs policy2, the empty id, ids with control characters, quotes and non-BMP code points) and a pool of 6 policies; documents are loaded under 11 file names (empty, relative with ./ // .., trailing slash, backslashes, non-ASCII) that every position must report verbatim; every operation result compared; '
                 'non-trivial = the history contains at least one mutation' % maxlen)
     ctx.exhaustive = True
 
